@@ -25,6 +25,7 @@ pub fn gen_simcfg(r: &mut Rng) -> SimCfg {
     c.alloc_every = *r.pick(&[0u64, 1, 3, 8, 32, 128]);
     c.atomic_every = *r.pick(&[0u64, 0, 1, 1, 2, 5, 17]);
     c.atomic_load_every = *r.pick(&[0u64, 0, 0, 1, 1, 3, 11]);
+    c.spurious_wake_rate = *r.pick(&[0.0, 0.0, 0.0, 0.02, 0.1, 0.3]);
     if c.sched == SchedMode::PctSync {
         // synchronisation events are the whole point of this policy
         c.atomic_every = 1;
